@@ -329,3 +329,143 @@ def build_math_replay(U, job, ob, outdir, prop_id):
     with open(base + ".json", "w") as fh:
         json.dump(info, fh, indent=1)
     return base + ".json", confirmed, output
+
+
+def build_lemma_replay(U, job, ob, outdir, prop_id):
+    """Replay of a z3 model of a math lemma: the lemma's calls are executed in order on the REAL functions with the
+    model's inputs; every output is compared with the output the verifier predicted at that model."""
+    from fractions import Fraction
+    import cxx2c
+    tr = U.tr
+    ml = job["spec"]
+    label = ob.get("label") or ob["id"]
+    cex = ob.get("cex", {})
+    cg = ob.get("callgraph") or {}
+    os.makedirs(outdir, exist_ok=True)
+    base = os.path.join(outdir, "%s__%s__%s__math" % (prop_id, re.sub(r"\W+", "_", ml.name), re.sub(r"\W+", "_", label)))
+    info = dict(property=prop_id, lemma=ml.name, obligation=label, obligation_id=ob["id"], description=ob.get("desc"),
+                inputs={k: v.get("data") for k, v in cex.items()}, callgraph=cg, unit=U.name,
+                verifier="z3 on VCs generated from the extracted IR (lib/mathvc.py), mode %s" % ml.mode, kind=ob.get("kind"))
+    confirmed, output = None, ""
+
+    def val(s):
+        if s is None:
+            return None
+        s = str(s).replace("?", "")
+        if s in ("True", "False"):
+            return 1.0 if s == "True" else 0.0
+        try:
+            return float(Fraction(s))
+        except Exception:
+            return None
+    try:
+        if "calls" not in cg:
+            raise ExtractionBreak("no call graph recorded: %s" % cg)
+        src = PRE % dict(unit_cpp=U.cpp, label=label, prelude=os.path.join(VERIF, 'include', 'verif_prelude.h'))
+        for canon, cn in tr.rec_names.items():
+            if tr.rec_defs.get(cn) is None and cn not in tr.rec_info:
+                continue
+            src += "typedef %s %s;\n" % (canon, cn)
+        fnames = []
+        for c in cg["calls"]:
+            if c["fname"] not in fnames:
+                fnames.append(c["fname"])
+        for fn in fnames:
+            src += adapter(U, fn)
+        L = []
+        isint = ml.mode == "int"
+        for (cname, name) in cg["inputs"]:
+            if cname is None:
+                v = val(cex.get("in_" + name, {}).get("data", "0")) or 0.0
+                L.append("  %s %s = %s;" % ("long" if isint else "double", name, ("%dL" % int(v)) if isint else repr(v)))
+                continue
+            ty = U.ctype_to_ty(cname)
+            L.append("  %s;" % tr.cdecl(ty, name))
+            leaves = []
+            U.flatten(ty, name, "in_" + name, leaves)
+            for (iname, cty, path, lty) in leaves:
+                if cty is None:
+                    continue
+                v = val(cex.get(iname, {}).get("data", "0"))
+                if v is None:
+                    raise ExtractionBreak("model value of %s is not rational" % iname)
+                L.append("  %s = (%s)%s;" % (path, cty, ("%d" % int(v)) if cty not in ("float", "double") else repr(v)))
+        prints = []
+        for k, c in enumerate(cg["calls"]):
+            f = tr.funcs[c["fname"]]
+            params = list(f.params)[1:] if c["is_ctor"] else list(f.params)
+            args = []
+            for (pn, pt), a in zip(params, c["args"]):
+                if a["kind"] == "view":
+                    args.append(("&" if a["byptr"] else "") + a["path"])
+                else:
+                    v = val(a["value"])
+                    if v is None:
+                        raise ExtractionBreak("scalar argument not rational: %s" % a["value"])
+                    cty = tr.ctype(pt.to if a["byptr"] else pt)
+                    lit = ("(%s)%d" % (cty, int(v))) if cty not in ("float", "double") else "(%s)%r" % (cty, v)
+                    if a["byptr"]:
+                        L.append("  %s s%d_%s = %s;" % (cty, k, pn, lit))
+                        args.append("&s%d_%s" % (k, pn))
+                    else:
+                        args.append(lit)
+            if c["is_ctor"]:
+                L.append("  %s;" % tr.cdecl(f.params[0][1].to, "r%d" % k))
+                L.append("  %s(&r%d%s);" % (c["fname"], k, "".join(", " + x for x in args)))
+            elif f.ret.kind == "builtin" and f.ret.name == "void":
+                L.append("  %s(%s);" % (c["fname"], ", ".join(args)))
+            elif f.ret.kind == "ptr":
+                L.append("  auto &r%d = *%s(%s);" % (k, c["fname"], ", ".join(args)))
+            else:
+                L.append("  auto r%d = %s(%s);" % (k, c["fname"], ", ".join(args)))
+            for nm in c["predicted"]:
+                prints.append('  printf("OUT %s %%.17g\\n", (double)(%s));' % (nm, nm))
+                L.append(prints[-1])
+        src += "void h_lemma(void)\n{\n%s\n}\n}\nint main() { vr::h_lemma(); return 0; }\n" % "\n".join(L)
+        with open(base + ".cpp", "w") as fh:
+            fh.write(src)
+        exe = base + ".exe"
+        cmd = ["g++", "-std=c++11", "-O0", "-w", "-fno-access-control", "-DNDEBUG", "-I" + repo_path(), "-I" + os.path.join(VERIF, "units"), base + ".cpp", "-o", exe]
+        cmd += [d if d.startswith("-") else "-D" + d for d in U.defines]
+        p = subprocess.run(cmd, stdout=subprocess.PIPE, stderr=subprocess.PIPE, text=True, timeout=300)
+        info["replay_build"] = " ".join(cmd)
+        if p.returncode != 0:
+            raise ExtractionBreak("replay does not compile: " + p.stderr[-2000:])
+        r = subprocess.run([exe], stdout=subprocess.PIPE, stderr=subprocess.PIPE, text=True, timeout=60)
+        os.remove(exe)
+        native = {}
+        for line in r.stdout.splitlines():
+            if line.startswith("OUT "):
+                _, nm, v = line.split(" ", 2)
+                native[nm] = float(v)
+        scale = max([1.0] + [abs(val(v["data"]) or 0.0) for v in cex.values()])
+        cmpl, agree, n_cmp = [], True, 0
+        for c in cg["calls"]:
+            for nm, pv in c["predicted"].items():
+                pvf = val(pv)
+                if pvf is None or nm not in native:
+                    continue
+                n_cmp += 1
+                tol = ml.tol * max(1.0, abs(pvf), scale ** 3) if ml.mode == "real" else 0.5
+                ok = abs(native[nm] - pvf) <= tol
+                if native[nm] != native[nm]:
+                    ok = False
+                cmpl.append("%s (%s): real code %.9g, verifier predicted %.9g %s" % (nm, c["fname"], native[nm], pvf, "(agree)" if ok else "(DISAGREE)"))
+                agree = agree and ok
+        output = "\n".join(cmpl)
+        if ob.get("kind") == "math-safety" and ml.mode == "int":
+            # range obligation: the machine value left its type's range, i.e. the real code's result differs from the mathematical one
+            confirmed = bool((not agree) and n_cmp > 0)
+            output += "\nREPLAY RESULT: %s\n" % (("on the model's inputs the real code's machine arithmetic departs from the mathematical value (overflow/truncation): obligation '%s' is violated" % ob.get("desc")) if confirmed else "not reproduced")
+        else:
+            confirmed = bool(agree and n_cmp > 0)
+            output += "\nREPLAY RESULT: %s\n" % (("the real functions reproduce, on the model's inputs, the outputs that violate '%s'" % label) if confirmed else "not reproduced")
+    except (ExtractionBreak, ValueError, subprocess.TimeoutExpired, KeyError) as ex:
+        output = "replay not possible: %s" % ex
+        confirmed = None
+    info["replay_output"] = output[-6000:]
+    info["reproduced_on_real_code"] = confirmed
+    info["replay_source"] = base + ".cpp" if os.path.exists(base + ".cpp") else None
+    with open(base + ".json", "w") as fh:
+        json.dump(info, fh, indent=1, default=str)
+    return base + ".json", confirmed, output
